@@ -16,7 +16,10 @@ EXPLANATION = (
     "modules offer the same functions to the rest of the crate. ACCESSORS: every Bytes/MutBytes/ByteArray/"
     "MutByteArray/AsRef/AsMut/Deref(Mut) impl of the crate's containers is a pure projection of its storage "
     "(no arithmetic, no narrowing except the documented `[..LENGTH]` prefix of slice-like types), and "
-    "Bytes::len/is_empty read the same storage as as_slice.")
+    "Bytes::len/is_empty read the same storage as as_slice. CTOR-COPY: every conversion of a crate container from a "
+    "byte source (From<&[u8]>, From<&[u8; N]>, From<[u8; N]>, From<StackByteArray>, TryFrom<&[u8]>), every Clone of "
+    "one and every MutBytes::copy_from_slice impl lets the contents of the source (not just its length) reach the "
+    "result.")
 NOT_DECIDED = ("equivalence of the scalar and SIMD compression functions (value-level); sha2's asm backend; "
                "curve25519 backends; that outputs are bit-identical across configurations.")
 
@@ -346,6 +349,60 @@ def run(ctx, rep):
     rep.ob("SURFACE", "functions used by the rest of the crate", ua == ub and len(ua) >= 4, "software %s; SIMD %s" % (sorted(ua), sorted(ub)))
     accessors(rep, full)
     resizers(rep, full)
+    constructors(rep, full)
+
+
+def constructors(rep, prog):
+    """CTOR-COPY: "stack, Vec, heap and locked containers yield identical bytes" starts with every container
+    built from bytes holding those bytes.  For every hand-written or derived conversion of a crate container
+    from a byte source (From<&[u8]>, From<&[u8; N]>, From<[u8; N]>, From<StackByteArray<N>>, TryFrom<&[u8]>) and
+    every Clone of a byte container: the returned value depends on the *contents* of the source - a dependency
+    that only runs through the source's length (`resize(src.len(), 0)` with the copy forgotten) does not count."""
+    from ..inline import inline
+    n = 0
+    for imp in prog.impls:
+        tr = imp.get("trait") or ""
+        st = imp["self_ty"]["t"]
+        if not st.startswith(("types::StackByteArray", "protected::HeapByteArray", "protected::HeapBytes")):
+            continue
+        full = imp.get("trait_full") or ""
+        if tr in ("std::convert::From", "std::convert::TryFrom"):
+            if not any(s in full for s in ("From<&[u8", "From<[u8", "From<types::StackByteArray", "From<&'")):
+                continue
+            name = "from" if tr.endswith("::From") else "try_from"
+        elif tr == "std::clone::Clone":
+            name = "clone"
+        else:
+            continue
+        for it in imp["items"]:
+            if it["name"] != name:
+                continue
+            f0 = prog.by_key.get(it["key"])
+            if f0 is None or not f0.blocks:
+                continue
+            f = inline(prog, f0)
+            n += 1
+            sl = cm.content_slice(f, [0])
+            rep.ob("CTOR-COPY", full.strip("<>") or f0.path, 1 in sl,
+                   "the returned container %s the contents of its source" % ("depends on" if 1 in sl else "does NOT depend on (only on the length of, or not at all on)"),
+                   loc=f0.loc())
+    rep.floor("container conversions / clones from a byte source", n, 11)
+    # the same for the in-place form: every impl of `MutBytes::copy_from_slice(&mut self, other)` lets the contents of
+    # `other` reach the storage behind `self`
+    m = 0
+    for imp in prog.impls:
+        if (imp.get("trait") or "") != "types::MutBytes":
+            continue
+        for it in imp["items"]:
+            f0 = prog.by_key.get(it["key"])
+            if it["name"] != "copy_from_slice" or f0 is None or not f0.blocks or f0.argc != 2:
+                continue
+            f = inline(prog, f0)
+            m += 1
+            sl = cm.content_slice(f, [1])
+            rep.ob("CTOR-COPY", "<%s as MutBytes>::copy_from_slice" % imp["self_ty"]["t"], 2 in sl,
+                   "the storage behind `self` %s the contents of `other`" % ("receives" if 2 in sl else "does NOT receive"), loc=f0.loc())
+    rep.floor("MutBytes::copy_from_slice impls", m, 8)
 
 
 ACC_TRAITS = {"types::Bytes": ("as_slice", "len", "is_empty"), "types::MutBytes": ("as_mut_slice",),
